@@ -49,7 +49,9 @@ LenOf(v) == IF v.t = "vec" THEN Len(v.c) ELSE v.n      \* strings and bytes carr
 \* equal? between the value and an allowed value (same representation, key spelling ignored)
 RECURSIVE ValEq(_, _)
 ValEq(a, b) ==
-  IF IsNum(a) /\ IsNum(b) THEN (a.t = b.t /\ a.n = b.n)
+  \* numbers are equal by VALUE across int and float (equal? 2 2.0 is true): an enumeration of ints admits the float 2.0,
+  \* which is what every number of a JSON document is unless :exact-integers is asked for
+  IF IsNum(a) /\ IsNum(b) THEN (IF a.t = "int" THEN 10 * a.n ELSE a.n) = (IF b.t = "int" THEN 10 * b.n ELSE b.n)
   ELSE IF a.t # b.t THEN FALSE
   ELSE CASE a.t \in {"str", "sym", "bytes"} -> a.s = b.s
          [] a.t = "bool" -> a.s = b.s
